@@ -224,7 +224,7 @@ def run(ctx, rep):
         if cds and len(cds[-1].outcome) == 1 and bi.in_loop(c.bb):
             subj_ok = any(x[0] == 'call' and x[1] == 'std::iter::Iterator::next' and bcfg_field(x[2][0]) == 'buildpacks' for x in walk(cds[-1].subject))
             # unconditional inside its arm: no further boolean guard decides whether the reference is forwarded
-            subj_ok = subj_ok and not [cd for cd in conditions(bi, c.bb, sl) if cd.kind == 'bool']
+            subj_ok = subj_ok and not [cd for cd in conditions(bi, c.bb, sl) if cd.kind == 'bool' and bi.dominates(cds[-1].target, cd.sw_bb)]
             arms[next(iter(cds[-1].outcome))] = subj_ok
     variants = sorted(v['name'] for v in prog.adt('libcnb_test::build_config::BuildpackReference')['variants'])
     rep.check(sorted(arms) == variants and all(arms.values()), 'R3', 'build/buildpacks', bw, 'one pack_command.buildpack(..) per configured reference, for every reference kind, in iteration order',
